@@ -21,6 +21,7 @@ import PV.Model.Warc
 import PV.Model.Format
 import PV.Model.Cache
 import PV.Model.WrapperTrace
+import PV.Driver.QueueAccept
 import PV.Spec.Flatten
 import PV.Gen.Flatten
 import PV.Spec.FirstOcc
@@ -515,6 +516,7 @@ def dispatch (line : String) : String :=
     | ["fmt", op] => fmt op args
     | ["cache", op] => cacheU op args
     | ["wrapper", op] => wrapperU op args
+    | ["queue", "accept"] => PV.QueueAccept.unit args
     | ["flat", "spec", op] => flat ("spec." ++ op) args
     | ["tools", "spec", op] => tools ("spec." ++ op) args
     | ["murmur", "spec", op] => murmur ("spec." ++ op) args
